@@ -144,7 +144,7 @@ theorem disc_left (D d NL EL SL NR ER SR wl els wr ers : Int) (hD : 0 < D) (hd0 
     (hwl : wl = 2 * d * (NL + 1) - 2 * D * (EL + SL)) (hels : els = 2 * d * (EL + SL) - 2 * D * EL)
     (hwr : wr = -(2 * d * NR) + 2 * D * (ER + SR)) (hers : ers = 2 * d * (ER + SR) - 2 * D * ER)
     (_b1 : -D < wl) (b2 : wl ≤ D + 2 * d) (b3 : -D ≤ els) (_b4 : els ≤ D) (_b5 : -D - 2 * d < wr)
-    (b6 : wr ≤ D) (b7 : -D ≤ ers) (b8 : ers ≤ D) (hn : NL + EL = NR + ER) :
+    (b6 : wr ≤ D) (b7 : -D ≤ ers) (_b8 : ers ≤ D) (hn : NL + EL = NR + ER) :
     4 * D * (NL + EL) + 2 * D - 4 * d * SL ≤
       (D + d + 2 * D * (NL + NR) + 2 * d * (EL + ER)) + 3 * D - d := by
   have h4 : d * D ≤ D * D := Int.mul_le_mul_of_nonneg_right hdD (by omega)
